@@ -43,6 +43,9 @@ func init() {
 			{Name: "PANIC-REACH", What: "every explicit panic in library code is in the reviewed table (caller contract / internal / recovered)", Floor: 15, Run: rulePanicReach},
 			{Name: "VAR-SLICE", What: "in the BAM record/aux decoders every variable slice bound is compared with the slice's length on a dominating edge", Floor: 6, Run: ruleVarSlice(varSliceFuncs)},
 			{Name: "LOOP-PROGRESS", What: "bam.parseAux's cursor advances by ≥ 1 on every path round its loop", Floor: 1, Run: ruleLoopProgress(loopProgressFuncs)},
+			{Name: "ACCEPT-AGREE", What: "the aux types and array element types bam.parseAux lets through are exactly those sam.Aux.Value decodes and the format defines (both sets computed by partial evaluation of the branch conditions under each value of the type and subtype bytes)", Floor: 2, Run: ruleAcceptAgree},
+			{Name: "SHIFT-FITS", What: "in csi.ReadFrom every shift by a computed amount (a function of the decoded depth) is bounded below the width of the shifted type", Floor: 1, Run: ruleShiftFits},
+			{Name: "OFFSET-FITS", What: "fai.ReadFrom bounds BytesPerLine (relative to the number of lines) and Start (relative to the record's extent), the operands of the unchecked product and sum in Record.position", Floor: 2, Run: ruleOffsetFits},
 		},
 		Explanation: "Removes, on every path of every library function, the classical decoder mistakes that make hostile input panic or hang: a fixed-column index or slice bound without a length test (IDX-CONST, with a small lower-bound analysis over constants, len, slicing arithmetic and the comparisons that dominate the use), a decoded signed count handed to make (MAKE-SIGN), a lookup table smaller than its index's range (IDX-TABLE), division by a decoded zero (DIV-ZERO), nil value with nil error (NILRET), explicit panics outside the reviewed set (PANIC-REACH), unchecked variable bounds and a non-advancing cursor in the BAM aux walker (VAR-SLICE, LOOP-PROGRESS).",
 		NotDecided:  "variable-index arithmetic outside the anchored BAM decoders, the sites listed as trusted (type invariants and library contracts, named in the evidence), nil dereferences in general, panics inside the standard library, memory use. The rules do not prove absence of all panics.",
